@@ -1,6 +1,6 @@
 /-
   UnitTypes.lean — the TYPE declarations of the unit layer (frames, clock speeds, easings, mappings, LFO
-  waveforms), separated from the functions on them so that the functions can be GENERATED from the Rust source
+  waveforms, playback states, filter modes / kinds, EQ coefficients), separated from the functions on them so that the functions can be GENERATED from the Rust source
   (KiraModel/GenFn.lean, which imports this file) and used by Model/Units.lean, Model/Easing.lean, Model/Lfo.lean.
   The declarations themselves are checked against the Rust `enum`/`struct` declarations by
   Proofs/GenAgree.lean (variant names, order and payloads against `K.Gen.Shape.*`; struct fields by the translator).
@@ -52,5 +52,46 @@ inductive Waveform (α : Type) where
   | saw
   | pulse (width : α)
 deriving Repr
+
+/-- mirrors: sound.rs::PlaybackState (discriminants 0..6 in this order) -/
+inductive PlaybackState where
+  | playing | pausing | paused | waitingToResume | resuming | stopping | stopped
+deriving DecidableEq, Repr
+
+/-- mirrors: filter.rs::FilterMode -/
+inductive FilterMode where
+  | lowPass | bandPass | highPass | notch
+deriving DecidableEq, Repr
+
+/-- mirrors: distortion.rs::DistortionKind -/
+inductive DistortionKind where
+  | hardClip | softClip
+deriving DecidableEq, Repr
+
+/-- mirrors: eq_filter.rs::EqFilterKind -/
+inductive EqFilterKind where
+  | bell | lowShelf | highShelf
+deriving DecidableEq, Repr
+
+/-- mirrors: eq_filter.rs::Coefficients (all `f64`) -/
+structure EqCoefs (α : Type) where
+  a1 : α
+  a2 : α
+  a3 : α
+  m0 : α
+  m1 : α
+  m2 : α
+
+/-- the `f64` coefficients computed per frame in Filter::process -/
+structure FilterCoefs (α : Type) where
+  k : α
+  a1 : α
+  a2 : α
+  a3 : α
+
+variable {α : Type} [Mul α] [OfScientific α] [KOps α] in
+/-- `std::f64::consts::TAU`.  In binary64 TAU is exactly `2 * PI` (doubling is exact); the `lfo`
+    correspondence suite pins the bits (`starting_phase / TAU`, `sin(phase * TAU)`). -/
+def tau : α := (2.0 : α) * KOps.pi
 
 end K
